@@ -416,3 +416,36 @@ package main
 //@   loop 0:
 //@     invariant 0 <= $i && $i <= len(m.headers) && m.headers == old(m.headers)
 //@     invariant forall j int :: 0 <= j && j < $i ==> !isHdr(m.headers[j], name)
+
+// ---- ordered parameter lists of a Via entry ----
+// kvFirst(ps, k): index of the first parameter named k, or -1; kvHas / kvGet derived from it.
+
+//@ func (*ViaParam).GetParam
+//@   props C02 C07
+//@   modifies nothing
+//@   ensures found: kvHas(vp.Params, name) ==> err == nil && result == kvGet(vp.Params, name)
+//@   ensures notfound: !kvHas(vp.Params, name) ==> err != nil
+//@   loop 0:
+//@     invariant 0 <= $i && $i <= len(vp.Params)
+//@     invariant forall j int :: 0 <= j && j < $i ==> vp.Params[j].Key != name
+
+//@ func (*ViaParam).HasParam
+//@   props C07
+//@   modifies nothing
+//@   ensures result == kvHas(vp.Params, name)
+//@   loop 0:
+//@     invariant 0 <= $i && $i <= len(vp.Params)
+//@     invariant forall j int :: 0 <= j && j < $i ==> vp.Params[j].Key != name
+
+//@ func (*ViaParam).SetParam
+//@   props C07 C06
+//@   modifies vp.Params
+//@   ensures overwrite: kvHas(old(vp.Params), name) ==> len(vp.Params) == len(old(vp.Params))
+//@        && vp.Params[kvFirst(old(vp.Params), name)].Key == name && vp.Params[kvFirst(old(vp.Params), name)].Value == value
+//@        && (forall j int :: 0 <= j && j < len(vp.Params) && j != kvFirst(old(vp.Params), name) ==> vp.Params[j] == old(vp.Params)[j])
+//@   ensures append: !kvHas(old(vp.Params), name) ==> len(vp.Params) == len(old(vp.Params)) + 1
+//@        && vp.Params[len(old(vp.Params))].Key == name && vp.Params[len(old(vp.Params))].Value == value
+//@        && (forall j int :: 0 <= j && j < len(old(vp.Params)) ==> vp.Params[j] == old(vp.Params)[j])
+//@   loop 0:
+//@     invariant 0 <= $i && $i <= len(vp.Params) && vp.Params == old(vp.Params)
+//@     invariant forall j int :: 0 <= j && j < $i ==> vp.Params[j].Key != name
